@@ -36,6 +36,7 @@ RULE = ("5 integral defuzzifiers x resolution {1,2,3,5,10,100, random <= 100, in
         "decimal/random parameters, also Gaussian/Bell/Sigmoid/Cosine/Spike/product terms, continuous norms only. Arc and "
         "SemiEllipse are left to C03 (F1/F2). A case is non-trivial when some result is finite; distinct = distinct input")
 RULE += (" Stream `midpoints` (fv/streams/midpoints.py): Op.midpoints at resolutions 1..5 (and 7, 16, 100) on reversed, empty, infinite and NaN ranges against Op.Integral.midpoints.")
+RULE += (" Family `declared range`: the sets of both families held in Aggregated objects whose own (minimum, maximum) is NaN, equal to, wider / narrower than, shifted against, disjoint from the range handed to defuzzify, half-NaN, infinite, reversed or a point (it stays put when terms and range are translated): the sampled set and all five points depend on the range of the call only.")
 ASSUMPTIONS = ["the model evaluates the memberships at the float sample points the implementation computed (Op.midpoints is "
                "compared separately against the exact midpoints)",
                "numbers: 1e-9 abs+rel; tie-sensitive results (Bisector arg-min set, max-plateau): the implementation may "
@@ -104,6 +105,11 @@ def build(case, row=None, shift=0.0):
             d = fl_num(d)
         terms.append(fl.Activated(term, d, fm.tnorm.construct(a["impl"]) if a["impl"] else None))
     agg = fm.snorm.construct(case["agg"]) if case["agg"] else None
+    if "declared" in case:
+        # the Aggregated object carries its own (minimum, maximum); the fuzzy set "over [min, max]" of the property is the one
+        # sampled over the range GIVEN TO defuzzify, so the attributes may say anything (and stay put under a translation)
+        dlo, dhi = (fl_num(v) for v in case["declared"])
+        return fl.Aggregated("out", dlo, dhi, agg, terms)
     return fl.Aggregated("out", float(case["lo"]) + shift, float(case["hi"]) + shift, agg, terms)
 
 
@@ -232,7 +238,8 @@ def key(case):
     if case.get("stream"):
         return case["stream"]
     return (f"fam={case.get('fam')};r={case.get('r')};batch={batch_size(case) if is_batch(case) else 0};"
-            f"terms={len(case.get('acts', []))};agg={case.get('agg')}")
+            f"terms={len(case.get('acts', []))};agg={case.get('agg')}"
+            + (f";declared={case.get('rel')}" if "declared" in case else ""))
 
 
 def tol(case):
@@ -480,6 +487,47 @@ def gen_general(ctx, n):
         yield case
 
 
+DECLARED = ["nan", "equal", "wider", "narrower", "shifted", "disjoint-above", "disjoint-below", "half-nan", "infinite",
+            "reversed", "point"]
+
+
+def declared_range(rng, rel, lo, hi):
+    """(minimum, maximum) written into the Aggregated object, in the given relation to the range [lo, hi] of defuzzify"""
+    L = hi - lo
+    f = rng.choice([0.25, 0.5, 1.0, 2.0])
+    if rel == "nan": return ["nan", "nan"]
+    if rel == "equal": return [lo, hi]
+    if rel == "wider": return [lo - f * L, hi + rng.choice([0.25, 1.0, 3.0]) * L]
+    if rel == "narrower": return [lo + L * rng.choice([0.125, 0.25, 0.375]), hi - L * rng.choice([0.125, 0.25, 0.375])]
+    if rel == "shifted":
+        c = rng.choice([-1, 1]) * f * L / 2
+        return [lo + c, hi + c]
+    if rel == "disjoint-above": return [hi + f * L, hi + (f + 1) * L]
+    if rel == "disjoint-below": return [lo - (f + 1) * L, lo - f * L]
+    if rel == "half-nan": return rng.choice([[lo, "nan"], ["nan", hi], [lo + L / 4, "nan"]])
+    if rel == "infinite": return rng.choice([["-inf", "inf"], [lo + L / 2, "inf"], ["-inf", lo + L / 2]])
+    if rel == "reversed": return [hi, lo]
+    if rel == "point": return [lo + L / 2, lo + L / 2]
+    raise ValueError(rel)
+
+
+def gen_declared(ctx, n):
+    """the sets of both families again, held in Aggregated objects whose own (minimum, maximum) is NaN (the default of the
+    constructor), equal to, wider / narrower than, shifted against or disjoint from the range handed to defuzzify - a user may
+    build the set once and defuzzify it over several ranges; the property speaks of the range of the call only"""
+    rng = ctx.rng
+    base = list(gen_dyadic(ctx, n // 2)) + list(gen_general(ctx, n - n // 2))
+    for i, case in enumerate(base):
+        if int(case["r"]) > 100:
+            case["r"] = 100
+            if case["fam"] == "dyadic":
+                continue                      # the dyadic grid depends on r
+        rel = DECLARED[i % len(DECLARED)]
+        case["rel"] = rel
+        case["declared"] = declared_range(rng, rel, float(case["lo"]), float(case["hi"]))
+        yield case
+
+
 def gen_errors(ctx):
     t = {"cls": "Triangle", "params": [0.0, 1.0, 2.0], "h": 1.0, "impl": "Minimum", "deg": 0.5}
     yield {"fam": "error", "lo": 0.0, "hi": 2.0, "r": 4, "agg": None, "acts": [t]}
@@ -644,9 +692,30 @@ def correspond(ctx):
         if bad:
             mism.append({"case": c, "impl": [float(v) for v in x[:5]], "model": o[:200],
                          "what": "Op.midpoints differs from the midpoints of the model"})
+    judge(ctx, todo, outs, mism, every=2)
+    # Op.midpoints for r = 1..5 and unusual ranges (start > end, infinite / NaN bounds) against Op.Integral.midpoints
+    mism += S_MID.run(ctx)
+    # drawn after every earlier stream: sets whose Aggregated object declares a range of its own
+    more = []
+    with np.errstate(all="ignore"):
+        for case in gen_declared(ctx, ctx.scale(220, 1100)):
+            x = sample_points(case)
+            if fragile(case, x):
+                st.skipped_fragile += 1
+                continue
+            more.append((case, x))
+    judge(ctx, more, ctx.driver.eval([line(c, x) for c, x in more]), mism, every=1)
+    return mism
+
+
+def judge(ctx, todo, outs, mism, every):
+    """model against implementation on every case, the property oracle on every `every`-th one"""
+    st = ctx.stats
     n_or = 0
     for i, ((case, x), o) in enumerate(zip(todo, outs)):
         st.count(case.get("fam", "corpus"))
+        if "declared" in case:
+            st.count("declared range: " + case["rel"])
         st.count(f"r<={10 if case['r'] <= 10 else 100 if case['r'] <= 100 else 1000}")
         st.count(f"terms={len(case['acts'])}")
         if is_batch(case):
@@ -665,7 +734,7 @@ def correspond(ctx):
             if len(mism) > 12:
                 break
         # the property oracle on a sub-stream (every case of the corpus / error stream, every 2nd generated case)
-        if i % 2 == 0 or case.get("fam") in ("error", None):
+        if i % every == 0 or case.get("fam") in ("error", None):
             ok, detail = oracle(case)
             n_or += 1
             if not ok:
@@ -673,13 +742,10 @@ def correspond(ctx):
                 if len(mism) > 12:
                     break
     st.count("oracle", n_or)
-    # Op.midpoints for r = 1..5 and unusual ranges (start > end, infinite / NaN bounds) against Op.Integral.midpoints
-    mism += S_MID.run(ctx)
-    return mism
 
 
 def search(ctx):
-    for case in cases(ctx):
+    for case in itertools.chain(cases(ctx), gen_declared(ctx, ctx.scale(220, 1100))):
         ok, d = oracle(case)
         if not ok:
             return [(case, d)]
